@@ -4,7 +4,7 @@
 # does not apply on HEAD), runs the named checks against it, removes the worktree.
 # Prints one line per check: <patch> <Cxx> base=<HEAD|BASE> exit=<n> violations=<k>
 set -u
-patch="$1"; shift
+patch="$(realpath "$1")"; shift
 export GOFLAGS=-mod=mod GOPROXY=off GOSUMDB=off GOTOOLCHAIN=local GOWORK=off
 wt=$(mktemp -d /tmp/seedwt.XXXXXX); rmdir "$wt"
 base=HEAD
